@@ -121,6 +121,83 @@ def ask(root, q):
         return ["err", type(e2).__name__]
 
 
+def static_of(sp):
+    t = type(sp).__name__
+    if t == "ItemSpace":
+        return static_of(sp.parent)
+    if t == "DynamicSpace":
+        return getattr(static_of(sp.parent), sp.name)
+    return sp
+
+
+def dump_model(m, case):
+    """namespace / formulas / ItemSpaces of every space object that exists after the queries
+    (static, derived, dynamic), as tables for Export/Run.v [mk_model]"""
+    from modelx.core.cells import Cells
+    sids, order = {}, []
+
+    def visit(sp):
+        if id(sp._impl) in sids:
+            return
+        sids[id(sp._impl)] = len(order)
+        order.append(sp)
+        for c in sp.spaces.values():
+            visit(c)
+        its = getattr(sp, "itemspaces", None)
+        if its:
+            for it in list(its.values()):
+                visit(it)
+    for s in m.spaces.values():
+        visit(s)
+
+    def val(v):
+        if type(v) is bool:
+            return ["b", v]
+        if type(v) is int:
+            return ["i", v]
+        if type(v) is list and all(type(x) is int for x in v):
+            return ["l", v]
+        if isinstance(v, Cells):
+            ps = v.parent
+            return ["cell", sids[id(ps._impl)], v.name] if id(ps._impl) in sids else ["opaque"]
+        if hasattr(v, "_impl") and id(v._impl) in sids:
+            return ["obj", sids[id(v._impl)]]
+        return ["opaque"]
+    out = []
+    for sid, sp in enumerate(order):
+        ns = []
+        for k, v in sp.refs.items():
+            if k[0] != "_":
+                ns.append([k, val(v)])
+        for k, c in sp.spaces.items():
+            ns.append([k, ["obj", sids[id(c._impl)]]])
+        cells = []
+        for k, c in sp.cells.items():
+            ns.append([k, ["cell", sid, k]])
+            src = c.formula.source
+            fs = G.funcs_from_source(src)       # may raise Unsupported
+            ps, body = fs.get(k) or fs.get("<lambda>") or list(fs.values())[0]
+            cells.append([k, ps, body])
+        items = []
+        its = getattr(sp, "itemspaces", None)
+        if its:
+            for key, it in its.items():
+                key = list(key) if isinstance(key, tuple) else [key]
+                if all(type(x) is int for x in key):
+                    items.append([key, sids[id(it._impl)]])
+        st = static_of(sp)
+        top = [k for k in st.refs if k[0] != "_"] + list(st.cells)
+        cellnames = sorted(set(list(st.cells) + [k for k, v in st.refs.items() if isinstance(v, Cells)]))
+        out.append({"ns": ns, "cells": cells, "items": items, "top": top, "cellnames": cellnames, "repr": repr(sp)})
+    qsid = []
+    for q in case["queries"]:
+        try:
+            qsid.append(sids.get(id(walk(m, q["path"])._impl)))
+        except Exception:
+            qsid.append(None)
+    return {"spaces": out, "qsid": qsid}
+
+
 def module_top(source):
     names = []
     for s in pyast.parse(source).body:
@@ -191,6 +268,13 @@ def main():
                 r["build_err"] = "%s: %s" % (type(e).__name__, str(e)[:300])
                 break
             r["vals"]["m" + variant] = [ask(m, q) for q in case["queries"]]
+            if variant == "a":
+                try:
+                    r["dump"] = dump_model(m, case)
+                except G.Unsupported as e:
+                    r["dump_err"] = "unsupported: %s" % e
+                except Exception as e:
+                    r["dump_err"] = "%s: %s" % (type(e).__name__, str(e)[:200])
             del RECORDS[:]
             try:
                 m.export(path)
